@@ -612,8 +612,12 @@ func TestSerialiseRestore(t *testing.T) {
 			t.Fatal(err)
 		}
 		var trace []string
-		apply := func(x *allocator.IPAllocator, r interface{ IntN(int) int }, n int, rec bool) []string {
-			var res []string
+		apply := func(x *allocator.IPAllocator, r interface{ IntN(int) int }, n int, rec bool) (res []string) {
+			defer func() {
+				if p := recover(); p != nil {
+					res = append(res, fmt.Sprintf("PANIC: %v", p))
+				}
+			}()
 			for i := 0; i < n; i++ {
 				s := subs[r.IntN(len(subs))]
 				k := r.IntN(10)
@@ -684,8 +688,12 @@ func TestSerialiseRestore(t *testing.T) {
 			t.Fatal(err)
 		}
 		var etrace []string
-		eapply := func(x *allocator.EpochBitmapAllocator, r interface{ IntN(int) int }, n int, rec bool) []string {
-			var res []string
+		eapply := func(x *allocator.EpochBitmapAllocator, r interface{ IntN(int) int }, n int, rec bool) (res []string) {
+			defer func() {
+				if p := recover(); p != nil { // a restored allocator that panics answers differently from the original
+					res = append(res, fmt.Sprintf("PANIC: %v", p))
+				}
+			}()
 			for i := 0; i < n; i++ {
 				s := subs[r.IntN(len(subs))]
 				switch k := r.IntN(10); {
